@@ -151,7 +151,7 @@ def corpus_cases(ifaces):
 
 def cases(tier, rng, ifaces):
     names = ['echo', 't1', 'a1', 'g1'] + sorted(n for n in ifaces if n.startswith('r'))
-    return compound_cases(rng, ifaces, names, 2500 if tier == 'quick' else 30000) + payload_cases(rng, tier)
+    return compound_cases(rng, ifaces, names, 2500 if tier == 'quick' else 30000) + payload_cases(rng, tier) + overflow_cases(rng, tier)
 
 
 def fresh_cases(tier, rng, ifaces):
@@ -190,6 +190,33 @@ def compound_cases(rng, ifaces, names, n):
             op = f'PROC {iface.name} 256 {hx(stream)} {",".join(map(str, sizes))}' + (' pend=1' if rng.random() < 0.3 else '')
             meta['kind'] = 'PROC-compound'
         out.append(Case(op, oracle, meta))
+    return out
+
+
+def overflow_oracle(line, case):
+    if is_crash(line):
+        return 'crash'
+    log = log_entries(parse_fields(line))
+    if not log or log[0] != '6()' or log[-1] != '3()':
+        return f'a message discarded because it overflowed the buffer must leave no path behind: expected SYST:A (6) first and the root BAR (3) last, got {log}'
+    return None
+
+
+def overflow_cases(rng, tier):
+    """process: a unit moves the path, then a string with a newline stays open until the buffer is full (the message is discarded);
+    the next message starts at the root"""
+    out = []
+    for n in (16, 17, 20, 24, 32):
+        for k in range(0, 2 * n):
+            # (a) the open string is closed late: junk, then BAR
+            stream = b'SYST:A;STR "ab\n' + b'c' * k + b'"\nBAR\n'
+            # (b) no closing quote; for k = n - 9 the line feed behind the filler is the byte that fills the buffer: the
+            #     unfinished message `STR "ab<LF>ccc…<LF>` is discarded and BAR is the next message, from the root
+            stream_b = b'SYST:A;STR "ab\n' + b'c' * k + b'\nBAR\n'
+            for sched in ('-', ','.join(['1'] * len(stream)), ','.join(str(rng.randint(1, n)) for _ in range(len(stream)))):
+                out.append(Case(f'PROC echo {n} {hx(stream)} {sched}', overflow_oracle, {'kind': 'PROC-overflow-path', 'units': 3}))
+                out.append(Case(f'PROC echo {n} {hx(stream_b)} {sched}', overflow_oracle if k == n - 9 else None,
+                                {'kind': 'PROC-overflow-exact' if k == n - 9 else 'PROC-overflow-open', 'units': 3}))
     return out
 
 
